@@ -16,15 +16,22 @@ def main(tier, replay=None):
     else:
         vk_run(res, "c01", src, rd, "0,1,1,1", 1, 600, "one-deviation,full-grid", opts=["thorough=1"])
         vk_run(res, "c01", src, rd, "0,1,1,1", 2, 1500, "two-deviations", opts=[])
+    # the clock: one second before a midnight at which the day number gets a second digit; the second may change at any time() call of the program
+    vk_run(res, "c01", src, rd, "0,0,0,1", 1, 240, "second-changes-at-midnight", opts=["clock=1000079999"])
+    # the documented compile-time feature QUEUE_EXTRA (extra.h, FAQ 8.2: a copy of every message to a log address): the same grid without deviations
+    xsrc = os.path.join(rd, "src-extra"); sh("cp -r %s %s" % (src, xsrc))
+    open(os.path.join(xsrc, "extra.h"), "w").write('#ifndef EXTRA_H\n#define EXTRA_H\n#define QUEUE_EXTRA "Tlog@extra.example\\0"\n#define QUEUE_EXTRALEN 19\n#endif\n')
+    sh("make qmail-queue >make-extra.log 2>&1 || { tail -20 make-extra.log; exit 1; }", cwd=xsrc)
+    vk_run(res, "c01", xsrc, rd, "0,0,0,0", 0, 240, "compiled-with-QUEUE_EXTRA", opts=["extra=log@extra.example"])
     res.rule = ("each execution runs the real qmail-queue binary to completion on the virtual kernel; level 0 = every input of the grid "
                 "(message sizes straddling the 256/2048/8192 buffers, 0..2 recipients, 1002/1003/1004-byte addresses, wrong record letters, "
                 "every truncation point of the envelope, four invoking uids); level 1 = for each input, every system call x {process kill, "
                 "machine crash with every keep/lose pattern of unsynced files, each applicable errno, short write, short/interrupted read, SIGALRM (the program's own 24-hour timer) arriving before the call}; "
                 "level 2 (thorough) = every pair; the all-or-nothing invariant is evaluated after every call and on every post-crash image; "
-                "distinct = distinct (input, exit status, final queue tree)")
+                "distinct = distinct (input, exit status, final queue tree); the level-0 grid again on a tree compiled with QUEUE_EXTRA (one extra recipient record)")
     res.assumptions = ["virtual kernel semantics (DESIGN.md appendix A), bound to Linux by bin/conformance",
                        "crash model of conf-qmail: directory operations synchronous, file data since last fsync may be lost per file, single writes not torn"]
-    res.require_nonzero("evaluations", "machine_crashes", "process_kills", "faults_injected", "states_committed", "states_S3_leftover", "exits_success", "exits_failure", "signals_delivered")
+    res.require_nonzero("evaluations", "machine_crashes", "process_kills", "faults_injected", "states_committed", "states_S3_leftover", "exits_success", "exits_failure", "signals_delivered", "clock_ticks_during_run")
     res.notes.append("virtual kernel vs Linux: %d operation sequences compared before this run, all agree (bin/conformance)" % nconf)
-    lib_conformance(res, rd, src, ['io', 'num'], tier, asan=False)
+    lib_conformance(res, rd, src, ['io', 'num', 'date'], tier, asan=False)
     return res.finish()
